@@ -95,8 +95,10 @@ CLAIMED = {
         ref="7 (C08)",
     ),
     "C09": dict(
-        text="spec/Archive.tla is the run lifecycle (StartRun, AddResult, Save, CompleteRun, Abort; serial vs breadth-first ordering) with "
-        "CompleteMeansAllSaved, SaveAfterAdd, AbortLeavesRecords, AbortedStaysAborted checked by TLC; spec/ArchiveTrace.tla replays the "
+        text="spec/Archive.tla is the run lifecycle (StartRun, AddResult, Save, SignalStopAll, CompleteRun, Abort; serial vs breadth-first "
+        "ordering; a serial run that stop_all() shuts down cancels the members that have not started and is still completed) with "
+        "CompleteMeansAllSaved, SaveAfterAdd, AbortLeavesRecords, CancelledIsSuffix, CancelledNeverAdded, EveryRunEnds, AbortedStaysAborted "
+        "checked by TLC; spec/ArchiveTrace.tla replays the "
         "recorded ResultsManager calls of real runs as those actions and then requires the projected archive (vars.json, errors.json, "
         "printouts.txt, data.csv, unmatched.csv parsed back; member manifests valid/completed/error_count/file_fingerprints with hashes "
         "recomputed from the bytes on disk; run manifest status/all_valid/all_completed/error_count; ResultsManager.is_valid) to agree "
@@ -263,7 +265,7 @@ ADDED = {
     "C05": " Error runs inside the run machine (Eval!Flush = ErrorPolicy!HandleN) with control functions, incl. errors raised under last() on a file that ends in a blank record; exceptions that escape a member's run loop in a named-paths run (handled under the member's policy).",
     "C07": " collect() (the function) of a header a matched line need not have: the hand-over fails in every method at the same call.",
     "C08": " Each member's collected data.csv in every collecting way equals its standalone lines.",
-    "C09": " Groups print to the default and to named printouts (compared section by section); early-failing members followed by erroring members.",
+    "C09": " Groups print to the default and to named printouts (compared section by section); early-failing members followed by erroring members; a non-final member that raises stop_all() under the member-major methods (under next_paths the later members are cancelled: no directory, no result, the run manifest is still completed and speaks about the members that ran).",
     "C10": " Histories with fast-forward (data-less) runs and with abandoned next_* generators; references asked by the instance that ran, one that ran earlier and one that never ran.",
     "C12": " A csvpath without identity may occur more than once in a list; member texts contain empty lines.",
     "C15": " Every mode case is driven by collect() and by fast_forward(); SameRun 'silent': a bare CsvPath with and without print-mode: no-default is the same run, and silent.",
